@@ -32,7 +32,7 @@ from spacepackets.cfdp.pdu.ack import TransactionStatus
 from spacepackets.cfdp.pdu.finished import DeliveryCode, FileStatus, FinishedParams
 from spacepackets.cfdp.pdu.helper import GenericPduPacket, PduHolder
 from spacepackets.cfdp.pdu.nak import get_max_seg_reqs_for_max_packet_size_and_pdu_cfg
-from spacepackets.cfdp.tlv import MessageToUserTlv
+from spacepackets.cfdp.tlv import FilestoreResponseStatusCode, MessageToUserTlv
 from spacepackets.countdown import Countdown
 
 from cfdppy.defs import CfdpState
@@ -799,8 +799,12 @@ class DestHandler:
                 self._params.fp.file_name = self._params.fp.file_name.joinpath(source_base_name)
             if self.user.vfs.file_exists(self._params.fp.file_name):
                 self.user.vfs.truncate_file(self._params.fp.file_name)
-            else:
+            elif (
                 self.user.vfs.create_file(self._params.fp.file_name)
+                != FilestoreResponseStatusCode.CREATE_SUCCESS
+            ):
+                # For example, the directory of the destination file does not exist.
+                raise PermissionError(f"can not create {self._params.fp.file_name}")
             self._params.finished_params.file_status = FileStatus.FILE_RETAINED
         except PermissionError:
             self._params.finished_params.file_status = FileStatus.DISCARDED_FILESTORE_REJECTION
